@@ -545,6 +545,12 @@ func (w *Reconciler) adoptUnrecordedTasks(rj *execution.Job, tasks []jobtasks.Ta
 	for _, task := range tasks {
 		names.Insert(task.GetName())
 	}
+
+	// Tasks that are recorded in the status were already looked up, and if such a task was
+	// not found then it is gone: the cache may still hold a stale copy of it.
+	for _, ref := range rj.Status.Tasks {
+		names.Insert(ref.Name)
+	}
 	for _, task := range allTasks {
 		if names.Has(task.GetName()) {
 			continue
